@@ -29,6 +29,7 @@ type FuncContract struct {
 	Props     []string
 	Requires  []*Clause
 	Ensures   []*Clause
+	GhostEffects []*Clause // definitional ghost updates: assumed by callers, not checked in the body
 	HasMod    bool
 	Modifies  []SExpr
 	LoopInv   map[int][]*Clause
@@ -85,6 +86,7 @@ type Contracts struct {
 	Confined map[string][]string // struct -> fields confined to the event loop
 	InertPkgs []string
 	Files    []string
+	DynBind  map[string]string // name of a func-valued field/variable -> the only function it holds
 }
 
 var labelRe = regexp.MustCompile(`^([A-Za-z_][A-Za-z0-9_\-]*):\s+(.*)$`)
@@ -101,7 +103,7 @@ func splitLabel(s string) (string, string) {
 }
 
 var clauseKeywords = map[string]bool{
-	"func": true, "property": true, "requires": true, "ensures": true, "modifies": true,
+	"dynbind": true, "ghost-effect": true, "func": true, "property": true, "requires": true, "ensures": true, "modifies": true,
 	"loop": true, "at": true, "inline": true, "safe": true, "trusted": true, "noframe": true,
 	"inloop": true, "holds": true, "pure": true, "ghost": true, "spec": true, "axiom": true,
 	"iface": true, "monitor": true, "confined": true, "lemma": true, "dynpure": true, "note": true,
@@ -111,7 +113,7 @@ var clauseKeywords = map[string]bool{
 // loadContracts reads every *_verif.go file under dir (recursively, skipping hidden dirs)
 // and parses the //@ lines.
 func loadContracts(dir string, pkgPathOf func(dir string) string) (*Contracts, error) {
-	cs := &Contracts{Funcs: map[string]*FuncContract{}, Ifaces: map[string]*FuncContract{}, SpecFns: map[string]*SpecFn{}, Ghosts: map[string]*GhostVar{}, Confined: map[string][]string{}}
+	cs := &Contracts{Funcs: map[string]*FuncContract{}, Ifaces: map[string]*FuncContract{}, SpecFns: map[string]*SpecFn{}, Ghosts: map[string]*GhostVar{}, Confined: map[string][]string{}, DynBind: map[string]string{}}
 	var files []string
 	filepath.Walk(dir, func(p string, info os.FileInfo, err error) error {
 		if err != nil {
@@ -208,6 +210,9 @@ func (cs *Contracts) parseFile(file, pkg string) error {
 		switch kw {
 		case "func", "iface", "lemma":
 			name := rest
+			if kw != "iface" && rest != "*" {
+				name = qualifyFuncName(rest, pkg)
+			}
 			fc := &FuncContract{Name: name, Pkg: pkg, LoopInv: map[int][]*Clause{}, LoopMod: map[int][]SExpr{}, File: file, Line: rl.line}
 			curMon = nil
 			if kw == "iface" {
@@ -243,6 +248,15 @@ func (cs *Contracts) parseFile(file, pkg string) error {
 			} else {
 				cur.Ensures = append(cur.Ensures, c)
 			}
+		case "ghost-effect":
+			if cur == nil {
+				return fmt.Errorf("%s:%d: ghost-effect outside func", file, rl.line)
+			}
+			c, err := mkClause("ghost-effect", rest, rl.line)
+			if err != nil {
+				return err
+			}
+			cur.GhostEffects = append(cur.GhostEffects, c)
 		case "modifies":
 			if cur == nil {
 				return fmt.Errorf("%s:%d: modifies outside func", file, rl.line)
@@ -326,6 +340,12 @@ func (cs *Contracts) parseFile(file, pkg string) error {
 			cur.Pure = true
 		case "dynpure":
 			cur.DynPure = append(cur.DynPure, strings.Fields(rest)...)
+		case "dynbind":
+			f := strings.Fields(rest)
+			if len(f) != 2 {
+				return fmt.Errorf("%s:%d: expected 'dynbind <name> <function>'", file, rl.line)
+			}
+			cs.DynBind[f[0]] = f[1]
 		case "note":
 			if cur != nil {
 				cur.Notes = append(cur.Notes, rest)
@@ -483,4 +503,29 @@ func splitTop(s string, sep byte) []string {
 	}
 	out = append(out, s[start:])
 	return out
+}
+
+// qualifyFuncName prefixes names in contract files of sub-packages with the package's short
+// path: sweep -> timecache.sweep, (*FirstSeenCache).Add -> (*timecache.FirstSeenCache).Add.
+func qualifyFuncName(name, pkg string) string {
+	sp := shortPkg(pkg)
+	if sp == "" {
+		return name
+	}
+	if strings.HasPrefix(name, "(*") {
+		if strings.HasPrefix(name, "(*"+sp+".") {
+			return name
+		}
+		return "(*" + sp + "." + name[2:]
+	}
+	if strings.HasPrefix(name, "(") {
+		if strings.HasPrefix(name, "("+sp+".") {
+			return name
+		}
+		return "(" + sp + "." + name[1:]
+	}
+	if strings.HasPrefix(name, sp+".") {
+		return name
+	}
+	return sp + "." + name
 }
